@@ -44,9 +44,12 @@ def _ipts(a):
 class Case:
     """A concrete grid class with its alternatives."""
 
-    def __init__(self, name, make, can_set_points, can_select, dim1=False, extra=None, can_query=True, inf_ok=True):
+    def __init__(self, name, make, can_set_points, can_select, dim1=False, extra=None, can_query=True, inf_ok=True, half=False):
         self.name, self.make = name, make
         self.can_query, self.inf_ok = can_query, inf_ok
+        # half: integer-dtype points queried about half-integer centres; the trace is written in DOUBLED coordinates
+        # (points 2p, centres 2c, R = 2 (2r)^2), so that the specification still works on integers
+        self.half = half
         self.can_set_points, self.can_select, self.dim1 = can_set_points, can_select, dim1
         self.extra = extra  # function(obj) -> comparable "domain or lattice"
 
@@ -83,6 +86,10 @@ def _classes():
         Case("Grid1D", lambda: Grid(p1.copy(), w5.copy()), True, True, dim1=True),
         Case("Grid2D", lambda: Grid(p2.copy(), w5.copy()), True, True),
         Case("Grid3D", lambda: Grid(p3.copy(), w5.copy()), True, True),
+        Case("Grid3D[int points, half-integer centres]", lambda: Grid(p3.astype(np.int64), w5.copy()), True, True, half=True),
+        Case("Grid2D[int points, half-integer centres]", lambda: Grid(p2.astype(np.int32), w5.copy()), True, True, half=True),
+        Case("OneDGrid[int points, half-integer centres]", lambda: OneDGrid(p1.astype(np.int64), w5.copy(), (-1, 60)), True, True, dim1=True,
+             extra=lambda g: [float(g.domain[0]), float(g.domain[1])], half=True),
         Case("OneDGrid", lambda: OneDGrid(p1.copy(), w5.copy(), (-1.0, 60.0)), True, True, dim1=True,
              extra=lambda g: [float(g.domain[0]), float(g.domain[1])]),
         Case("LocalGrid", lambda: LocalGrid(p3.copy(), w5.copy(), np.zeros(3), np.arange(5)), True, False),
@@ -194,7 +201,8 @@ class Driver:
         cands = [P[0], mid, far, P[n // 2] + 1]
         self.centers = [c[0] if d1 else c for c in cands]
         self.sels = make_sels(n)
-        self.events = [{"ev": "New", "cls": case.name, "pts": enc_points(pts0, d1), "wts": self.tok.of(wts0)}]
+        self.k = 2 if case.half else 1
+        self.events = [{"ev": "New", "cls": case.name, "pts": enc_points(self.k * pts0, d1), "wts": self.tok.of(wts0)}]
 
     def _blank(self, ev):
         # only the fields the trace specification reads for this kind of event
@@ -221,23 +229,31 @@ class Driver:
         elif R == HUGE:
             radius = (1e300, float(np.sqrt(R / 2.0)), np.float64(1.7e308), 10 ** 15)[form]
         else:
-            radius = (float(np.sqrt(R / 2.0)), np.float64(np.sqrt(R / 2.0)), np.float32(np.sqrt(R / 2.0)), float(np.sqrt(R / 2.0)))[form]
+            rad = np.sqrt(R / 2.0) / self.k
+            radius = (float(rad), np.float64(rad), np.float32(rad), float(rad))[form]
         d1 = self.case.dim1
-        if d1:
+        if self.case.half:
+            # half-integer centre, float forms only
+            if d1:
+                c = (float(c) + 0.5, np.float64(c) + 0.5, np.array(float(c) + 0.5), float(c) - 0.5)[(form + ci) % 4]
+            else:
+                cc = np.asarray(c, dtype=float) + 0.5
+                c = (cc, [float(x) for x in cc], tuple(float(x) for x in cc), cc.astype(np.float32))[(form + ci) % 4]
+        elif d1:
             c = (float(c), int(c), np.float64(c), np.array(float(c)))[(form + ci) % 4]
         else:
             cc = np.asarray(c, dtype=float)
             c = (cc, cc.astype(int), [float(x) for x in cc], tuple(int(x) for x in cc))[(form + ci) % 4]
         e = self._blank("Query")
-        e["c"], e["r"] = enc_center(c, d1), R
+        e["c"], e["r"] = enc_center(self.k * np.asarray(c, dtype=float), d1), R
         try:
             with warnings.catch_warnings():
                 warnings.simplefilter("ignore")
                 lg = self.obj.get_localgrid(c, radius)
             e["idx"] = [int(i) for i in np.asarray(lg.indices).tolist()]
-            e["lp"] = enc_points(lg.points, d1) if len(lg.weights) else []
+            e["lp"] = enc_points(self.k * np.asarray(lg.points), d1) if len(lg.weights) else []
             e["lw"] = self.tok.of(lg.weights)
-            e["lc"] = enc_center(lg.center, d1)
+            e["lc"] = enc_center(self.k * np.asarray(lg.center, dtype=float), d1)
             e["typ"] = type(lg).__name__
             if len(e["lp"]) != len(e["idx"]) or len(e["lw"]) != len(e["idx"]):
                 e["exc"] = "shape-mismatch"
@@ -248,7 +264,9 @@ class Driver:
     def set_points(self, pi, inplace=False):
         e = self._blank("SetPoints")
         new = self.palts[pi % len(self.palts)].copy()
-        e["pts"] = enc_points(new, self.case.dim1)
+        if self.case.half:
+            new = new.astype(np.asarray(self.obj.points).dtype)    # the grid stays an integer-dtype grid
+        e["pts"] = enc_points(self.k * new, self.case.dim1)
         try:
             if inplace:
                 # the other way callers move a grid: edit the array they were given, then assign it back
@@ -280,7 +298,7 @@ class Driver:
             with warnings.catch_warnings():
                 warnings.simplefilter("ignore")
                 sub = self.obj[py_sel(sel)]
-            e["rp"] = enc_points(sub.points, self.case.dim1) if len(sub.weights) else []
+            e["rp"] = enc_points(self.k * np.asarray(sub.points), self.case.dim1) if len(sub.weights) else []
             e["rw"] = self.tok.of(sub.weights)
             e["sametype"] = type(sub) is type(self.obj)
             if self.case.extra is not None:
@@ -316,7 +334,7 @@ class Driver:
         except Exception as ex:
             e["exc"] = type(ex).__name__
         try:
-            e["ptsafter"] = enc_points(self.obj.points, self.case.dim1)
+            e["ptsafter"] = enc_points(self.k * np.asarray(self.obj.points), self.case.dim1)
             e["wtsafter"] = self.tok.of(self.obj.weights)
         except Exception as ex:
             e["exc"] = "state-unreadable:" + type(ex).__name__
